@@ -14,6 +14,16 @@ def chk(pid, text, note, design, technique='deductive verification: ast->VC gene
     }
 
 CHECKS = [
+    chk("C05", "Contracts on the real introspectable-pass functions: local closure of every analysis function, monotonicity, "
+        "frame, skip propagation, and range/first-match contracts of the index lookups; loops by invariants with a ghost index.",
+        "Trusted: givc, schema, Transformer lookups (uninterpreted). The global clause (validate iterates to a fixpoint) is a "
+        "known finding replayed natively; property/field passes and emitted GIR files are not yet under contract.", "DESIGN.md section 4 C05"),
+    chk("C20", "Contracts on the real xmlwriter functions: collect_attributes equals the fold of the declarative attribute step "
+        "(None omitted, separators whitespace, quoteattr), stack discipline of push/pop, tagcontext closes on normal and "
+        "exceptional exit, text is escaped.",
+        "Trusted: givc, saxutils.escape/quoteattr contracts, io.StringIO as accumulated text, with-bodies abstracted as balanced "
+        "writer use; XML meta-lemma validated with expat on random documents (spec validation only). One known finding "
+        "(write_comment).", "DESIGN.md section 4 C20"),
     chk("C01", "Contracts on the real annotation-application functions (_apply_annotations_param_ret_common, "
         "_apply_transfer_annotation, _is_pointer_type): every clause of the property for direction, caller-allocation, "
         "nullable/optional/not, skip, doc and transfer validity is a named obligation discharged for all field valuations.",
